@@ -64,7 +64,10 @@ def _is_alloc(value) -> bool:
         fn = unparse(value.func)
         if fn in ALLOCATORS:
             return True
-        if fn.endswith(".copy") or fn.endswith(".astype") or fn.endswith(".tolist") or "create_struct_proxy" in fn:
+        if fn.endswith(".astype"):
+            # ndarray.astype(dtype, copy=False) returns the array itself when the dtype already matches: an alias, not a fresh array
+            return not any(k.arg == "copy" and not (isinstance(k.value, ast.Constant) and k.value.value is True) for k in value.keywords)
+        if fn.endswith(".copy") or fn.endswith(".tolist") or "create_struct_proxy" in fn:
             return True
         last = fn.split(".")[-1]
         if last[:1].isupper() and not fn.startswith("numpy.ndarray"):
@@ -245,6 +248,72 @@ class FunctionEffects(ast.NodeVisitor):
         return s.endswith("behavior") or s.endswith("__dict__") or s in self.module_names.get("containers", ())
 
 
+_PKG_CONTAINERS: dict = {}
+
+
+def _package_containers(repo):
+    """names bound at module level to a dict / list / set display anywhere in the package"""
+    key = str(repo)
+    if key not in _PKG_CONTAINERS:
+        names = set()
+        for p in all_source_files(repo):
+            for st in parse_file(p).body:
+                if isinstance(st, ast.Assign) and len(st.targets) == 1 and isinstance(st.targets[0], ast.Name) and _is_container_expr(st.value):
+                    names.add(st.targets[0].id)
+                if isinstance(st, ast.AnnAssign) and isinstance(st.target, ast.Name) and st.value is not None and _is_container_expr(st.value):
+                    names.add(st.target.id)
+        _PKG_CONTAINERS[key] = names
+    return _PKG_CONTAINERS[key]
+
+
+def borrowed_views(repo):
+    """`X.view(T)` call sites where X is an operand of the function (a parameter other than self / cls, or a name bound to one) and T is not numpy.ndarray:
+    viewing an array as a vector class runs that class's __array_finalize__ on an object that shares the operand's dtype"""
+    out = []
+    for p in all_source_files(repo):
+        tree = parse_file(p)
+        relp = rel(p, repo)
+        out.extend(_borrowed_views_in(tree, relp))
+    return out
+
+
+def _derives_from_param(fe, base, params, depth=0):
+    """the name is a parameter or is bound to (a part / view / alias of) one: results of calls to functions are values of their own"""
+    if base in params:
+        return base not in ("self", "cls")
+    if depth > 3:
+        return False
+    for v in fe.assigned.get(base, []):
+        node = v
+        while isinstance(node, (ast.Attribute, ast.Subscript)) or (isinstance(node, ast.Call) and isinstance(node.func, ast.Attribute)):
+            node = node.value if not isinstance(node, ast.Call) else node.func.value
+        if isinstance(node, ast.Name) and node.id != base and _derives_from_param(fe, node.id, params, depth + 1):
+            return True
+        if isinstance(node, ast.Name) and node.id == base and base in params:
+            return True
+    return False
+
+
+def _borrowed_views_in(tree, relp):
+    out = []
+    for fn in ast.walk(tree):
+        if not isinstance(fn, (ast.FunctionDef, ast.AsyncFunctionDef)):
+            continue
+        params = [a.arg for a in fn.args.posonlyargs + fn.args.args + fn.args.kwonlyargs]
+        fe = FunctionEffects(relp, fn.name, None, fn, params, {"containers": set()})
+        for node in ast.walk(fn):
+            if isinstance(node, ast.Call) and isinstance(node.func, ast.Attribute) and node.func.attr == "view" and len(node.args) == 1 and not node.keywords:
+                t = unparse(node.args[0])
+                if t in ("numpy.ndarray", "np.ndarray"):
+                    continue
+                base = _root(node.func.value)
+                if base in ("self", "cls") or base is None:
+                    continue
+                if fe.classify(base) == "borrowed" and _derives_from_param(fe, base, params):
+                    out.append((relp, fn.name, node.lineno, unparse(node)[:80], base))
+    return out
+
+
 def analyse_file(path, repo):
     tree = parse_file(path)
     relp = rel(path, repo)
@@ -254,6 +323,12 @@ def analyse_file(path, repo):
             containers.add(st.targets[0].id)
         if isinstance(st, ast.AnnAssign) and isinstance(st.target, ast.Name) and st.value is not None and _is_container_expr(st.value):
             containers.add(st.target.id)
+    # names imported from another module of the package where they are module-level containers (the synonym tables of _methods.py ...)
+    for st in ast.walk(tree):
+        if isinstance(st, ast.ImportFrom) and (st.module or "").startswith("vector"):
+            for al in st.names:
+                if al.name in _package_containers(repo):
+                    containers.add(al.asname or al.name)
     module_names = {"containers": containers}
     out = []
 
